@@ -424,7 +424,7 @@ def monitor_case(ops, obs, which):
                     V("C09", "accepts-bad-file", f"{ops[i].strip()} succeeded on a file with a corrupted identification / too short", i)
                 b = fstate["before_close"]
                 # (no claim on an arena opened with a capacity below the cursor stored in the file: DESIGN 0.4b)
-                if b is not None and "flset" in b and fstate["badfile"] is False and int(o.get("al", 0)) <= int(o.get("cp", 0)) and "..." not in o.get("fl", ""):
+                if b is not None and "flset" in b and fstate["badfile"] is False and not fstate.get("tampered") and int(o.get("al", 0)) <= int(o.get("cp", 0)) and "..." not in o.get("fl", ""):
                     # the arena ended with an owned handle as its last owner: the file must show that handle's extent released
                     got = (o.get("al"), o.get("di"), sorted(x_ for x_ in parse_fl(o.get("fl")) if x_))
                     if got != (b["al"], b["di"], b["flset"]):
